@@ -22,6 +22,9 @@ pub fn run(ctx: &Ctx) -> Report {
     let deadline = move || budget.over_budget();
     let max_states = if thorough { 6_000_000 } else { 1_500_000 };
     let mut alphabets = vec![alphabet_r1(thorough), alphabet_r2()];
+    if thorough {
+        alphabets.push(alphabet_r2_big());
+    }
     let r3: Vec<usize> = (0..11).collect();
     for i in r3 {
         alphabets.push(alphabet_r3(SIGN_TYPES[i].0, SIGN_TYPES[(i + 1) % 11].0));
@@ -40,12 +43,12 @@ pub fn run(ctx: &Ctx) -> Report {
             }
         }
     }
-    // E5: second engine on the R2 runs (and R1-quick in the thorough tier)
+    // E5: second engine on the R2 runs (and R2-big in the thorough tier)
     let mut xs = vec![];
     if rep.violations.is_empty() {
         let mut alphas = vec![alphabet_r2()];
         if thorough {
-            alphas.push(alphabet_r1(false));
+            alphas.push(alphabet_r2_big());
         }
         for alpha in alphas {
             for automatic in [false, true] {
